@@ -197,6 +197,8 @@ package period
 //@ let m = matches(weekPattern, yyyyWww)
 //@ let y = num(yyyyWww[0:4])
 //@ let w = num(yyyyWww[6:len(yyyyWww)])
+// (a cut at the first date construction: by then the two numbers have been read off the string)
+//@ before NewDate assert year == num(yyyyWww[0:4]) && week == num(yyyyWww[6:len(yyyyWww)]) && 0 <= year && year <= 9999 && 1 <= week && week <= 99
 //@ use weekOfYear(y, w)
 //@ ensures implies(result1 == nil, m && 1 <= w && w <= klog.isoweek(dn(y, 12, 28)))
 //@ ensures implies(m && 1 <= w && w <= klog.isoweek(dn(y, 12, 28)), result1 == nil)
